@@ -7,6 +7,7 @@ import (
 	"io"
 	"os"
 	"strings"
+	"sync"
 )
 
 const (
@@ -18,7 +19,10 @@ var sniffFormats = []sniffFormat{
 	spdxSniff{},
 }
 
-var state = make(map[string]sniffState, len(sniffFormats))
+var (
+	state    = make(map[string]sniffState, len(sniffFormats))
+	stateMtx sync.Mutex
+)
 
 type sniffFormat interface {
 	sniff(data []byte) Format
@@ -101,6 +105,11 @@ func (fs *Sniffer) SniffReader(f io.ReadSeeker) (Format, error) {
 	fileScanner.Split(bufio.ScanLines)
 
 	var format Format
+
+	// The line sniffers keep their scratch state in a package level map,
+	// only one stream can be sniffed line by line at a time.
+	stateMtx.Lock()
+	defer stateMtx.Unlock()
 
 	initSniffState()
 	for fileScanner.Scan() {
